@@ -11,7 +11,9 @@ U(x, y) == <<1000 * x, 1000 * y>>
 RepsAll == <<NoRep, Rect(2, 2, U(7, 5)), Regular(2, 2, U(6, 1), U(-1, 8)), Explicit(<<U(7, 0), U(-5, 6)>>),
              ExplicitX(<<U(6, 0)[1], U(-7, 0)[1]>>), ExplicitY(<<U(5, 0)[1]>>),
              \* an offset that is extreme only along a diagonal: needed by rotated bounding boxes
-             Explicit(<<U(4, 0), U(-4, 0), U(0, 4), U(0, -4), U(3, 3)>>)>>
+             Explicit(<<U(4, 0), U(-4, 0), U(0, 4), U(0, -4), U(3, 3)>>),
+             \* degenerate lattices: a single column / a single row (the other vector must not matter)
+             Regular(1, 3, U(6, 1), U(-1, 8)), Regular(3, 1, U(6, 1), U(-1, 8)), Rect(1, 3, U(7, 5))>>
 Rots == <<Rot0, Rot90, Rot180, Rot270, Rot345, Rot345n>>
 Mags == <<Mag(1, 1), Mag(2, 1), Mag(1, 2)>>
 Kinds == <<"polygon", "flexpath", "robustpath", "label">>
@@ -32,7 +34,7 @@ Steps1(k, ap) ==
 
 Idx(seq) == DOMAIN seq
 QuickSel(rf, ro, mg, rr, kd, er) ==
-    Depth = "thorough" \/ (rf + ro + 2 * mg + 3 * rr + kd + 5 * er) % 7 = 0
+    Depth = "thorough" \/ (rf + ro + 2 * mg + 3 * rr + kd + 5 * er) % 11 = 0
 Tuples == {t \in {0, 1} \X Idx(Rots) \X Idx(Mags) \X Idx(RepsAll) \X Idx(Kinds) \X Idx(RepsAll) :
              QuickSel(t[1], t[2], t[3], t[4], t[5], t[6])}
 OneLevel ==
